@@ -292,6 +292,11 @@ func (eval Evaluator) matchScaleThenEvaluateInPlace(level int, el0 *rlwe.Ciphert
 
 	r0, r1, _ := eval.matchScalesBinary(el0.Scale.Uint64(), el1.Scale.Uint64())
 
+	// Avoid overwriting the second input if it is the output: elOut receives el0 * r0 before el1 is read
+	if el1 == elOut.El() {
+		el1 = el1.CopyNew()
+	}
+
 	for i := range el0.Value {
 		eval.parameters.RingQ().AtLevel(level).MulScalar(el0.Value[i], r0, elOut.Value[i])
 	}
